@@ -297,6 +297,20 @@ fn non_success_kind_and_type(kind: UnitKind, result: ExecutionResult) -> (NonSuc
     }
 }
 
+/// Converts `data` to an `XmlString` without U+FFFE and U+FFFF.
+///
+/// These two noncharacters are excluded from XML 1.0 documents, and `XmlString::new` (which strips
+/// ANSI escapes and control characters) doesn't remove them. Test output containing them would
+/// otherwise make the whole report ill-formed.
+fn xml_string(data: impl Into<XmlString>) -> XmlString {
+    let data = data.into();
+    if data.as_str().contains(['\u{fffe}', '\u{ffff}']) {
+        XmlString::new(data.as_str().replace(['\u{fffe}', '\u{ffff}'], ""))
+    } else {
+        data
+    }
+}
+
 enum TestcaseOrRerun<'a> {
     Testcase(&'a mut TestCase),
     Rerun(&'a mut TestRerun),
@@ -306,10 +320,10 @@ impl TestcaseOrRerun<'_> {
     fn set_message(&mut self, message: impl Into<XmlString>) -> &mut Self {
         match self {
             TestcaseOrRerun::Testcase(testcase) => {
-                testcase.status.set_message(message.into());
+                testcase.status.set_message(xml_string(message));
             }
             TestcaseOrRerun::Rerun(rerun) => {
-                rerun.set_message(message.into());
+                rerun.set_message(xml_string(message));
             }
         }
         self
@@ -318,10 +332,10 @@ impl TestcaseOrRerun<'_> {
     fn set_description(&mut self, description: impl Into<XmlString>) -> &mut Self {
         match self {
             TestcaseOrRerun::Testcase(testcase) => {
-                testcase.status.set_description(description.into());
+                testcase.status.set_description(xml_string(description));
             }
             TestcaseOrRerun::Rerun(rerun) => {
-                rerun.set_description(description.into());
+                rerun.set_description(xml_string(description));
             }
         }
         self
@@ -330,10 +344,10 @@ impl TestcaseOrRerun<'_> {
     fn set_system_out(&mut self, system_out: impl Into<XmlString>) -> &mut Self {
         match self {
             TestcaseOrRerun::Testcase(testcase) => {
-                testcase.set_system_out(system_out.into());
+                testcase.set_system_out(xml_string(system_out));
             }
             TestcaseOrRerun::Rerun(rerun) => {
-                rerun.set_system_out(system_out.into());
+                rerun.set_system_out(xml_string(system_out));
             }
         }
         self
@@ -342,10 +356,10 @@ impl TestcaseOrRerun<'_> {
     fn set_system_err(&mut self, system_err: impl Into<XmlString>) -> &mut Self {
         match self {
             TestcaseOrRerun::Testcase(testcase) => {
-                testcase.set_system_err(system_err.into());
+                testcase.set_system_err(xml_string(system_err));
             }
             TestcaseOrRerun::Rerun(rerun) => {
-                rerun.set_system_err(system_err.into());
+                rerun.set_system_err(xml_string(system_err));
             }
         }
         self
